@@ -28,7 +28,7 @@ type chain struct {
 	inter      [][]byte
 }
 
-var chainNames = []string{"mixed-key-cert", "three-for-two", "parameters", "unclean-paths", "sublayout", "plain"}
+var chainNames = []string{"mixed-key-cert", "three-for-two", "parameters", "unclean-paths", "sublayout", "plain", "cert-via-intermediate"}
 
 // buildChain materialises one of the generated supply chains below base.
 func buildChain(base, name string, dsse bool) *chain {
@@ -59,6 +59,20 @@ func buildChain(base, name string, dsse bool) *chain {
 			l.ByProducts = bp(j)
 			gen.DumpLink(c.linkDir, "s1", sg.KeyID, gen.MustWrap(l, false, sg)) // certificates only exist in the legacy wrapper
 		}
+	case "cert-via-intermediate":
+		// the functionary's certificate chains to the layout's root only through an intermediate CA that
+		// the caller supplies (or withholds: operation V(-inter))
+		nb, na := gen.Wide()
+		root := gen.NewCert(gen.Key("p256b"), nil, gen.Attr{CN: "root"}, true, nb, na)
+		mid := gen.NewCert(gen.Key("p256c"), root, gen.Attr{CN: "intermediate"}, true, nb, na)
+		leaf := gen.NewCert(gen.Key("ed4"), mid, gen.Attr{CN: "f"}, false, nb, na)
+		s := gen.Step("s1", 1, nil, allow, allow)
+		s.CertificateConstraints = []intoto.CertificateConstraint{{CommonName: "*", DNSNames: []string{"*"}, Emails: []string{"*"}, Organizations: []string{"*"}, Roots: []string{"*"}, URIs: []string{"*"}}}
+		lay = gen.Layout(gen.FarFuture, []intoto.Step{s}, nil, keys)
+		lay.RootCas = map[string]intoto.Key{root.AsKey.KeyID: root.AsKey}
+		c.inter = [][]byte{mid.PEM}
+		l := gen.Link("s1", gen.Arts("src", gen.H(1)), gen.Arts("f", gen.H(2)), "build")
+		gen.DumpLink(c.linkDir, "s1", leaf.Signer.KeyID, gen.MustWrap(l, false, leaf.Signer)) // certificates only exist in the legacy wrapper
 	case "three-for-two":
 		s1 := gen.Step("s1", 1, []string{k1.ID}, allow, allow)
 		s2 := gen.Step("s2", 2, []string{k1.ID, k2.ID, k3.ID}, [][]string{{"MATCH", "*", "WITH", "PRODUCTS", "FROM", "s1"}, {"DISALLOW", "*"}}, allow)
@@ -224,6 +238,18 @@ func clip(s string) string {
 
 var opNames = []string{"V()", "V(P=f)", "V(P=x)", "VDir(P=f)"}
 
+// opsFor: the operations of the history search; chains with parameters or caller-supplied intermediates
+// get one more each (a dictionary whose value holds another parameter's marker; verification without the intermediates).
+func opsFor(chain string) []string {
+	switch chain {
+	case "parameters":
+		return append(append([]string{}, opNames...), "V(P={Q},Q=f)")
+	case "cert-via-intermediate":
+		return append(append([]string{}, opNames...), "V(-inter)")
+	}
+	return opNames
+}
+
 func applyOp(c *mcx.Ctx, op string, md intoto.Metadata, keys map[string]intoto.Key, ch *chain) string {
 	var params map[string]string
 	switch op {
@@ -231,6 +257,8 @@ func applyOp(c *mcx.Ctx, op string, md intoto.Metadata, keys map[string]intoto.K
 		params = map[string]string{"P": "f"}
 	case "V(P=x)":
 		params = map[string]string{"P": "x"}
+	case "V(P={Q},Q=f)":
+		params = map[string]string{"P": "{Q}", "Q": "f"}
 	default:
 		params = map[string]string{}
 	}
@@ -238,8 +266,27 @@ func applyOp(c *mcx.Ctx, op string, md intoto.Metadata, keys map[string]intoto.K
 	if strings.HasPrefix(op, "VDir") {
 		entry = 1
 	}
-	r, err := gen.VerifyAt(c.Work, entry, md, keys, ch.linkDir, params, ch.inter)
+	inter := ch.inter
+	if op == "V(-inter)" {
+		inter = nil
+	}
+	r, err := gen.VerifyAt(c.Work, entry, md, keys, ch.linkDir, params, inter)
 	return summaryJSON(r, err)
+}
+
+// expectVerdict: what each operation must answer by construction of the chain, whatever came before it in
+// the process (comparing with freshly loaded copies alone cannot see state the library keeps across calls).
+func expectVerdict(chain, op string) string {
+	switch {
+	case chain == "parameters":
+		if op == "V(P=f)" || op == "VDir(P=f)" {
+			return "accept"
+		}
+		return "reject" // {P} unreplaced, replaced by x, or replaced by the literal text {Q}: the product f is not allowed
+	case chain == "cert-via-intermediate" && op == "V(-inter)":
+		return "reject"
+	}
+	return "accept"
 }
 
 // runHistory replays ops on one set of live objects; returns per-op results, per-op snapshots and the first violation.
@@ -258,7 +305,10 @@ func runHistory(c *mcx.Ctx, ch *chain, ops []string) (sig, obs string, finalStat
 		// same operation on freshly loaded copies
 		want := applyOp(c, op, ch.load(), ch.keys(), ch)
 		c.Impl(1)
-		if got != want {
+		if exp := expectVerdict(ch.Name, op); !strings.HasPrefix(got, exp) {
+			sig = fmt.Sprintf("C10|history|verdict-differs-from-the-one-the-inputs-determine|chain=%s|after=%s|op=%s", ch.Name, strings.Join(ops[:i], ","), op)
+			obs = fmt.Sprintf("operation %d (%s) must %s by construction of the chain; got %s", i, op, exp, clip(got))
+		} else if got != want {
 			sig = fmt.Sprintf("C10|history|result-differs-from-fresh-copy|chain=%s|after=%s|op=%s", ch.Name, strings.Join(ops[:i], ","), op)
 			obs = fmt.Sprintf("operation %d (%s) on the reused objects: %s; on freshly loaded copies: %s", i, op, clip(got), clip(want))
 		} else if after != before {
@@ -370,7 +420,7 @@ func payloads(m map[string]intoto.Metadata) map[string]any {
 
 func paramMenu(chain string) []map[string]string {
 	if chain == "parameters" {
-		return []map[string]string{{"P": "f"}, {"P": "x"}, {}}
+		return []map[string]string{{"P": "f"}, {"P": "x"}, {}, {"P": "{Q}", "Q": "f"}, {"P": "f", "Q": "{P}"}}
 	}
 	return []map[string]string{{}}
 }
@@ -381,7 +431,7 @@ func run(c *mcx.Ctx) {
 	mine := func() bool { n++; return c.Mine(n) }
 	for _, dsse := range []bool{false, true} {
 		for _, name := range chainNames {
-			if name == "mixed-key-cert" && dsse {
+			if (name == "mixed-key-cert" || name == "cert-via-intermediate") && dsse {
 				continue
 			}
 			// part 1
@@ -427,7 +477,7 @@ func run(c *mcx.Ctx) {
 			for depth := 0; depth < maxDepth && len(frontier) > 0; depth++ {
 				var next [][]string
 				for _, hist := range frontier {
-					for _, op := range opNames {
+					for _, op := range opsFor(name) {
 						h := append(append([]string{}, hist...), op)
 						sig, obs, key := runHistory(c, ch, h)
 						trans++
@@ -510,9 +560,9 @@ var _ = sort.Strings
 func init() {
 	mcx.Register(&mcx.Driver{
 		ID: "C10", Run: run, Replay: replay,
-		Rule: "six generated supply chains (step mixing key- and certificate-authorised links with threshold 2 and three links; three agreeing links with different by-products for threshold 2 on the last step; {P} markers in rules, command and inspection run; un-clean artifact paths under MATCH rules with two links; a sublayout; a plain chain) x {legacy, DSSE}: " +
+		Rule: "seven generated supply chains (step mixing key- and certificate-authorised links with threshold 2 and three links; three agreeing links with different by-products for threshold 2 on the last step; {P} markers in rules, command and inspection run; un-clean artifact paths under MATCH rules with two links; a sublayout; a plain chain; a step whose certificate functionary reaches the layout root only through a caller-supplied intermediate) x {legacy, DSSE}, parameter dictionaries incl. values that hold another parameter's marker: " +
 			"(1) InTotoVerify under every combination of iteration orders with at most 1 (thorough: 2) deviations from sorted order plus ALL permutations at the counting loop, the reference-link pick, the sublayout loops, the parameter loop and the layout-key loop; verdict and canonical summary must be identical in all executions; " +
-			"(2) explicit-state BFS over histories of operations {V(), V(P=f), V(P=x), VDir(P=f)} on the same in-memory layout and key objects (full tree to depth 2, deeper levels from states not seen before, depth 3 quick / 4 thorough): every operation's result equals that of the same operation on freshly loaded copies and the serialisation of layout, keys and link files is unchanged; " +
+			"(2) explicit-state BFS over histories of operations {V(), V(P=f), V(P=x), VDir(P=f); parameters chain: + V(P={Q},Q=f); intermediate chain: + V(-inter) without the intermediates} on the same in-memory layout and key objects (full tree to depth 2, deeper levels from states not seen before, depth 3 quick / 4 thorough): every operation's result equals that of the same operation on freshly loaded copies and the serialisation of layout, keys and link files is unchanged; " +
 			"(3) VerifyArtifacts, SubstituteParameters, ReduceStepsMetadata, VerifyLinkSignatureThesholds called twice on the same in-memory objects. states = executions (part 1) + distinct history states; transitions = choice points + operations.",
 		Assumptions: []string{
 			"map iteration order inside dependencies is not owned",
